@@ -569,7 +569,7 @@ func (r *runner) genTarget() string {
 	case 9:
 		return r.pick([]string{"XML:/*", "XML://a/@b", "JSON:a.b", "JSON", "XML", "REQUEST_XML:/*", "RESPONSE_XML://x", "XML:/a[", "JSON:a[0]"})
 	case 10:
-		return v + ":" + r.pick([]string{"", "/", "'", "/(/", "a/b", "'a", "/a", "//"})
+		return v + ":" + r.pick([]string{"", "/", "'", "/(/", "a/b", "'a", "/a", "//", "'/^id_/", "'a b", "'/a", "'a'b", "'/a/"})
 	default:
 		return "ARGS|ARGS_NAMES|REQUEST_HEADERS|REQUEST_COOKIES|REQUEST_URI|REQUEST_BODY|RESPONSE_BODY|TX|FILES|" + v
 	}
@@ -751,8 +751,8 @@ var dirVals = map[string][]string{
 	"secruleremovebyid":              {"1", "1-3", "x", "3-1", "1 2 3", "", "1-", "-1", "99999999999999999999", "1 x", "1-2-3"},
 	"secruleremovebytag":             {"t1", "attack-sqli", "", "nosuch", "\"t1\""},
 	"secruleremovebymsg":             {"plain", "", "nosuch", "\"plain\""},
-	"secruleupdatetargetbyid":        {`1 "ARGS|!ARGS:a"`, `1-3 !ARGS:x`, `1 2 ARGS`, `x`, ``, `1`, `1 "!REQUEST_COOKIES:/^x/"`, `1 nosuchvar`, `1-2 "ARGS:/(/"`, `5-1 ARGS`, `1 "ARGS" "x"`, `99 ARGS`},
-	"secruleupdatetargetbytag":       {`t1 "!ARGS:a"`, `t1 ARGS`, `t1`, ``, `nosuch ARGS`, `"t1" "ARGS|!ARGS:/a/"`, `t1 nosuchvar`, `t1 ARGS x`},
+	"secruleupdatetargetbyid":        {`1 "ARGS|!ARGS:a"`, `1-3 !ARGS:x`, `1 2 ARGS`, `x`, ``, `1`, `1 "!REQUEST_COOKIES:/^x/"`, `1 nosuchvar`, `1-2 "ARGS:/(/"`, `5-1 ARGS`, `1 "ARGS" "x"`, `99 ARGS`, `1 ARGS:'/^id_/`, `1 "ARGS:'a"`, `1 ARGS|!ARGS:'x`},
+	"secruleupdatetargetbytag":       {`t1 "!ARGS:a"`, `t1 ARGS`, `t1`, ``, `nosuch ARGS`, `"t1" "ARGS|!ARGS:/a/"`, `t1 nosuchvar`, `t1 ARGS x`, `t1 ARGS:'/^id_/`, `t1 "!ARGS:'a"`},
 	"secruleupdateactionbyid":        {`1 "deny,status:403"`, `1 "id:2"`, `1-2 pass`, `1`, ``, `x "pass"`, `1 "nosuch"`, `1 "chain"`, `1 "t:none,t:lowercase"`, `1 2 "pass"`, `99 "pass"`, `1 "msg:'%{tx.a}',tag:'x'"`, `1 "phase:3"`, `1 "setvar:!tx.a"`},
 	"secdataset":                     {"ds1 `\na\nb\n`", "ds2 `\n1.2.3.4\n10.0.0.0/8\n`", "ds1", "", "ds3 `", "ds1 `\n#c\n\n`", "x y"},
 	"seccomponentsignature":          {"\"comp/1.0\"", "x", ""},
@@ -991,8 +991,11 @@ func (r *runner) generateConfs() {
 	// --- systematic: every variable as target (key, regex key, count, negation) and in macros ---
 	for _, v := range tabVariables {
 		forms := []string{v, v + ":a", v + ":/a/", "&" + v, "&" + v + ":a", v + "|!" + v + ":a", v + ":'/^x/'", "!" + v + ":/a/|" + v, strings.ToLower(v) + ":A"}
+		if selectable(v) { // target lists that END inside an open quote / regex
+			forms = append(forms, v+":'/^id_/", "ARGS|"+v+":'a", v+":/a")
+		}
 		for i, f := range forms {
-			if r.cfg.Thorough() || i%3 == r.rng.Intn(3) || i < 2 {
+			if r.cfg.Thorough() || i%3 == r.rng.Intn(3) || i < 2 || i >= 9 {
 				ph := r.pick([]string{"1", "2", "3", "4", "5"})
 				c := header + fmt.Sprintf("SecRule %s \"@rx .\" \"id:1,phase:%s,pass,msg:'%%{%s.a} %%{%s}',logdata:'%%{matched_var_name}',setvar:'tx.%%{%s.x}=%%{%s}',setvar:tx.n=+%%{%s}\"\nSecRule &%s \"@ge 0\" \"id:2,phase:5,pass,ctl:ruleRemoveTargetById=1;%s:a\"\n",
 					f, ph, v, v, v, v, v, v, v)
